@@ -480,9 +480,10 @@ CHECKS["C18"] = dict(
     level="exploration", engine="rapidcheck histories over a certificate directory tree / environment / attributes + PKI factory; SSL_CTX_new/free interposed",
     technique="model-based property testing: generated histories of credential updates (rename-over, in-place "
               "rewrite with equal size, symlink flip, XCM_TLS_CERT switch, by-file / by-value attribute overrides, "
-              "split by-value texts) interleaved with connection set-up and tear-down; the model records the "
-              "material designated at each creating call; observed through the certificate the other end sees "
-              "and through trust probes",
+              "split by-value texts, setns(2) between the initial and a named network namespace) interleaved "
+              "with connection set-up and tear-down on client-side and server-side subjects (kept server sockets, "
+              "xcm_accept_a overrides); the model records the material designated at each creating call; observed "
+              "through the certificate the other end sees, through trust probes and through CRL probes",
     level_text="Four credential sets (own leaf and root each; trust store = one of two observer issuers), three "
                "directories plus a symbolic link flipped between two of them, the XCM_TLS_CERT variable. Steps: "
                "write a set with fresh inodes, rewrite in place (same inode, same padded size; optionally "
@@ -493,11 +494,27 @@ CHECKS["C18"] = dict(
                "configurations whose texts concatenate identically but split differently. The other end reads "
                "tls.peer.cert.subject.cn; the trust store in force is probed by connecting to an observer whose "
                "issuer is / is not in the designated store. After the last close the number of live SSL_CTX "
-               "objects must be back to the level at the start of the case. Sampled.",
-    level_note="Server-side subjects and CRL material are not generated; single-threaded (C15 covers threads).",
+               "objects must be back to the level at the start of the case. Subjects are clients (xcm_connect_a) "
+               "or connections accepted from a server socket made at that moment or earlier in the history (the "
+               "server's designation - directory and namespace naming as they stood at xcm_server_a, or attributes "
+               "- read as the files stand at the accept call, unless xcm_accept_a overrides certificate/key by "
+               "file or by value or the trust store by value). Every directory carries both the <item>.pem and the "
+               "<item>_<ns>.pem files; the history thread moves between the initial and a named network namespace "
+               "(ip netns add, setns) and observers exist in both. With tls.check_crl the CRL comes from the "
+               "directory, tls.crl_file or tls.crl, and either revokes the observer or nobody. Broken material "
+               "also covers key/certificate of different algorithms and a garbage CRL. Each case and each replay "
+               "begins with a prelude connection from a directory of its own, so process-wide remembered state is "
+               "part of every history. Sampled.",
+    level_note="One history thread (C15 covers threads). Without the privilege to create a network namespace "
+               "(ip netns add fails) the namespace steps are skipped; the class counts in the evidence show "
+               "whether they ran.",
     rule=("Non-trivial = a connection was created after an update while an older socket using the previous "
           "material was still open (so a cache entry for the old material exists), or a split by-value pair."),
-    assumptions=["credential files are padded to equal length so that in-place rewrites keep the size"],
+    assumptions=["credential files are padded to equal length so that in-place rewrites keep the size",
+                 "an accepted connection is designated the files its server socket named (at xcm_server_a) as "
+                 "they stand when xcm_accept_a is called - the reading of 'designated when the call is made' that "
+                 "xcm.h and xcm:tls_detect_changes_to_cert_files support",
+                 "root with CAP_SYS_ADMIN and iproute2 for the namespace steps (the pinned suite needs the same)"],
     quick=dict(workers=16, cases=60, maxsize=40),
     thorough=dict(workers=16, cases=3000, maxsize=40),
 )
